@@ -100,6 +100,11 @@ def oracle(run, prim):
         seen[(style, p)] = n
         for s in suffixes:
             de_cases.append("len_de\t%s\t%s" % (style, p + s)); de_expect.append("Ok %d %s" % (n, s or "-"))
+        if n in (0, 1, 2, 9, 10, 99, 127, 128, 254, 255, 256, 300, 999, 1000, 4096, 65535):
+            # data longer than the announced length: the parser must not look at how much follows
+            for extra in (1, 9, 700):
+                data = "5a" * (n + extra)
+                de_cases.append("len_de\t%s\t%s" % (style, p + data)); de_expect.append("Ok %d %s" % (n, data))
         for cut in range(0, len(p) // 2):
             de_cases.append("len_de\t%s\t%s" % (style, p[:2 * cut] or "-")); de_expect.append("Err")
     outs2 = vlib.run_sharded(prim, de_cases, run.workdir, "orc_de")
